@@ -324,3 +324,89 @@ def selftest_T1():
             why = "" if ok else "expected silence, got %s" % viol
         out.append({"fixture": "fixtures/T1/%s" % name, "ok": ok, "why": why, "violations": viol, "obligations": len(r.obs)})
     return out
+
+
+# =================================================================================================
+COMPOUND = {"operator+=", "operator-=", "operator*=", "operator/="}
+
+
+def rule_S1(prog, fixture=False):
+    """SELF-ALIAS: x /= x[0], z *= z.re"""
+    from .flow import Flow
+    from .rules_state import fkey
+    res = RuleResult("S1", "a compound operator that takes its scalar operand by reference reads it only before its first write to "
+                           "the left operand: the operand may be an element (or a component) of the left operand itself")
+    n_ops = 0
+    for f in sorted(prog.functions.values(), key=lambda f: (f.file, f.line, f.name)):
+        if not f.cls or not VALUE_CLASSES.match(f.cls) or f.qn.rsplit("::", 1)[-1] not in COMPOUND or len(f.params) != 1:
+            continue
+        p = f.params[0]
+        if not p.get("ref"):
+            continue
+        pt = (p.get("t") or "").replace("const ", "").replace("&", "").strip()
+        if "base_array<" in pt or "std::vector<" in pt or "slice_t<" in pt:
+            continue        # element-wise array forms read rhs[i] before writing lhs[i]: a += a is well defined
+        elem = None
+        m = re.match(r"^dsplib::base_array<(.*)>$", f.cls)
+        if m:
+            elem = m.group(1)
+        may_alias = False
+        if f.cls == "dsplib::cmplx_t":
+            may_alias = pt in ("dsplib::cmplx_t", "double", "float")
+        elif elem is not None:
+            may_alias = (pt == elem) or (elem == "dsplib::cmplx_t" and pt in ("double", "float"))
+        n_ops += 1
+        key = "S1:" + fkey(f)
+        where = "%s:%d" % (prog.rel(f.file), f.line)
+        what = "%s(%s)" % (f.short, p.get("t", "").replace("dsplib::", ""))
+        extra = {"props": ["C03"]}
+        if not may_alias:
+            res.add(key, DISCHARGED, where, what, "operand type %s cannot alias the storage of the left operand" % pt, func=f.name, extra=extra)
+            continue
+        flow = Flow(f, prog)
+        writes, reads = [], []
+        for n in f.walk():
+            lhs = None
+            if n.k in ("BinaryOperator", "CompoundAssignOperator") and n.op and n.op.endswith("=") and n.op not in ("==", "!=", "<=", ">=") and n.c:
+                lhs = n.c[0]
+            elif n.k == "CXXOperatorCallExpr" and n.op and n.op.endswith("=") and n.op not in ("==", "!=", "<=", ">=") and len(n.c) > 1:
+                lhs = n.c[1]
+            elif n.k == "UnaryOperator" and n.op in ("++", "--") and n.c:
+                lhs = n.c[0]
+            if lhs is not None and any(r[0] == "this" for r in flow.root(lhs)):
+                writes.append(n)
+            if n.k == "DeclRefExpr" and n.decl and n.decl.get("k") == "parm" and n.decl.get("n") == p["n"]:
+                reads.append(n)
+        bad = None
+        f.blocks
+        for w in writes:
+            wl = f.block_of(w)
+            if wl is None:
+                continue
+            reach = f.reachable(wl[0])
+            # blocks reachable through at least one edge (a block reaches itself only via a cycle)
+            after = set()
+            for s_ in f.blocks[wl[0]].succs:
+                if s_ is not None:
+                    after |= f.reachable(s_)
+            for r in reads:
+                rl = f.block_of(r)
+                if rl is None:
+                    continue
+                if (rl[0] == wl[0] and rl[1] > wl[1]) or rl[0] in after:
+                    bad = (w, r)
+                    break
+            if bad:
+                break
+        if bad:
+            w, r = bad
+            res.add(key, VIOLATED, "%s:%d" % (prog.rel(f.file), r.line), what,
+                    "'%s' is read (line %d) after the left operand has been written (%s, line %d); when the operand is an element or "
+                    "component of the left operand itself (x /= x[0], z *= z.re) later elements see the modified value"
+                    % (p["n"], r.line, w.text(), w.line), func=f.name, extra=extra)
+        else:
+            res.add(key, DISCHARGED, where, what, "every read of '%s' precedes the first write to the left operand" % p["n"], func=f.name, extra=extra)
+    res.stats["compound_scalar_operators"] = n_ops
+    if n_ops == 0 and not fixture:
+        res.broken.append("anchor vanished: no compound scalar operator of base_array / cmplx_t instantiated")
+    return res
